@@ -148,11 +148,13 @@ def _work(ctx: Ctx, item):
             visited_pairs += 1
             ctx.klass("class:" + cname)
             f = d.fields[fi]
-            if isinstance(spec, int) and fi in pos:
+            values = [spec] if isinstance(spec, int) else list(spec[1]) if spec[0] == "choice" and cname in ("source_constant", "f_special") else None
+            if values is not None and fi in pos:
                 m = ((1 << f.bits) - 1) << pos[fi]
                 nb = max(bn, (pos[fi] + f.bits + 7) // 8)
-                for b, w, c in one(((bp & ~m) | (spec << pos[fi]), nb, [cname])):
-                    ctx.report(b, w, c)
+                for v in values:
+                    for b, w, c in one(((bp & ~m) | (v << pos[fi]), nb, [cname])):
+                        ctx.report(b, w, c)
             else:
                 drawn.append((fi, cname, spec))
         if drawn:
